@@ -1232,7 +1232,9 @@ namespace link_layer {
         procedure_timeout_    = connection_timeout_;
 
         this->synchronized_connection_event_callback_disconnect();
-        this->reset_encryption();
+
+        // the link stays encrypted until the connection is closed (force_disconnect()): what is already waiting in the
+        // transmit buffer and the LL_TERMINATE_IND are still to be sent
     }
 
     template < class Server, template < std::size_t, std::size_t, class > class ScheduledRadio, typename ... Options >
